@@ -75,12 +75,36 @@ func NewWatcher() (*Watcher, error) {
 	return w, nil
 }
 
+// real resolves symbolic links the way the kernel does when a watch is placed or a file is
+// written: a watch is on the directory a path leads to, whatever name was used to reach it.
+func real(path string) string {
+	if r, err := filepath.EvalSymlinks(path); err == nil {
+		return filepath.Clean(r)
+	}
+	return filepath.Clean(path)
+}
+
 func (w *Watcher) Add(name string) error {
 	if w.closed {
 		return errors.New("fsnotify: watcher already closed")
 	}
 	w.dirs[filepath.Clean(name)] = true
 	return nil
+}
+
+// watched reports the name under which w watches the directory of path (or path itself): events
+// carry the name the watch was added with, joined with the file's base name, as inotify's do.
+func (w *Watcher) watched(path string) (string, bool) {
+	dir, file := real(filepath.Dir(path)), real(path)
+	for given := range w.dirs {
+		switch real(given) {
+		case dir:
+			return filepath.Join(given, filepath.Base(path)), true
+		case file:
+			return given, true
+		}
+	}
+	return "", false
 }
 
 func (w *Watcher) Remove(name string) error {
@@ -110,7 +134,7 @@ func (w *Watcher) Close() error {
 func Watchers(path string) int {
 	n := 0
 	for _, w := range *registry() {
-		if !w.closed && (w.dirs[filepath.Dir(path)] || w.dirs[filepath.Clean(path)]) {
+		if _, ok := w.watched(path); !w.closed && ok {
 			n++
 		}
 	}
@@ -122,10 +146,11 @@ func Watchers(path string) int {
 func Emit(path string, op Op) int {
 	n := 0
 	for _, w := range *registry() {
-		if w.closed || !(w.dirs[filepath.Dir(path)] || w.dirs[filepath.Clean(path)]) {
+		name, ok := w.watched(path)
+		if w.closed || !ok {
 			continue
 		}
-		sim.Send("simfsn.Emit", w.Events, Event{Name: path, Op: op})
+		sim.Send("simfsn.Emit", w.Events, Event{Name: name, Op: op})
 		n++
 	}
 	return n
